@@ -74,6 +74,11 @@ type Case struct {
 	Prefixes   [][]byte
 	Git        bool     // also read the idx with `git show-index`
 	Corrupt    *Corrupt `json:",omitempty"`
+	// Bulk adds that many synthetic entries (ids from a seeded stream, every
+	// Bulk64-th one with an offset at or above 2^31), so that tables grow past
+	// internal chunk sizes (e.g. more than 8192 entries = 32 KiB of 32-bit offsets).
+	Bulk   int `json:",omitempty"`
+	Bulk64 int `json:",omitempty"`
 }
 
 func scramble(x uint16) uint16 { return uint16(uint32(x) * 40503) }
@@ -151,6 +156,11 @@ func gen(t *rapid.T, _ *evid.Recorder) Case {
 		c.Prefixes = append(c.Prefixes, rapid.SliceOfN(rapid.SampledFrom([]byte{0, 1, 0x7f, 0x80, 0xab, 0xcd, 0xef, 0xff, 0x12}), 1, 4).Draw(t, "prefix"))
 	}
 	c.Git = pick(t, "git", 5, 1) == 1
+	if pick(t, "bulk", 74, 1) == 1 {
+		c.Bulk = rapid.SampledFrom([]int{4095, 4096, 4097, 8191, 8192, 8193, 9000, 16384, 16385, 20000, 33000}).Draw(t, "bulk-n")
+		c.Bulk64 = rapid.SampledFrom([]int{1, 2, 7, 64, 1000, 8191, 8193}).Draw(t, "bulk-64")
+		return c // no corruption on bulk cases: every member is still compared with the model
+	}
 	if pick(t, "corrupt", 2, 1) == 1 {
 		k := &Corrupt{Target: "idx", Kind: "truncate", Pos: uint32(scramble(rapid.Uint16().Draw(t, "cpos"))) | uint32(rapid.Uint16().Draw(t, "cposhi"))<<16, Bit: uint8(rapid.IntRange(0, 7).Draw(t, "cbit"))}
 		if pick(t, "ctarget", 3, 1) == 1 {
@@ -247,6 +257,17 @@ func (c Case) entries(size int) []entry {
 			e := Ent{B0: byte(b), Seed: uint32(7919*b + 13), Last: -1}
 			add(entry{e.id(size, nil), 12 + uint64(b)*131 + 1<<20, uint32(b) * 2654435761})
 		}
+	}
+	for k := 0; k < c.Bulk; k++ {
+		e := Ent{B0: byte(uint32(k) * 2654435761 >> 24), Seed: uint32(1000003*k + 17), Last: -1}
+		off := uint64(1<<21) + uint64(k)*97
+		if c.Bulk64 > 0 && k%c.Bulk64 == c.Bulk64-1 {
+			off = uint64(1)<<31 + uint64(k)*4099
+			if k%3 == 0 {
+				off = uint64(1)<<33 + uint64(k)*8209
+			}
+		}
+		add(entry{e.id(size, nil), off, uint32(k) * 2246822519})
 	}
 	// A pack's first object sits at offset 12, so at most n-1 offsets need the
 	// 64-bit table (git's idx size check relies on it): pin the lowest offset.
@@ -768,6 +789,12 @@ func check(c Case) evid.Result {
 	}
 	res.NonTrivial = multi || has64
 	res.Labels = append(res.Labels, map[bool]string{false: "sha1", true: "sha256"}[c.SHA256])
+	if c.Bulk > 0 {
+		res.Labels = append(res.Labels, "bulk>4000-entries")
+		if len(model) > 8192 {
+			res.Labels = append(res.Labels, "bulk>8192-entries")
+		}
+	}
 	if len(model) == 0 {
 		res.Labels = append(res.Labels, "empty")
 	}
